@@ -5,10 +5,10 @@ import re
 
 from . import common as c
 
-SUPPORT = ["Loader/Pcdata.v", "Loader/StackMap.v", "Loader/PtrMapsProofs.v", "Loader/WbSpec.v", "Loader/WbCoverage.v"]
+SUPPORT = ["Loader/Pcdata.v", "Loader/StackMap.v", "Loader/PtrMapsProofs.v", "Loader/WbSpec.v", "Loader/WbCoverage.v", "Loader/FrameProofs.v", "Loader/FuncName.v"]
 
 CLAIM = {
-    "gens": ["PtrMaps", "WbStores"],
+    "gens": ["PtrMaps", "WbStores", "Frames"],
     "category": "proof",
     "text": ("WEAKEST CLAIM. Theorems (Coq) cover only the metadata handed to the Go runtime: (1) Pcdata.MarshalBinary (zig-zag varint value "
              "delta, uvarint pc delta, skip rule, terminator) followed by a transcription of runtime.readvarint/step/pcvalue returns at every "
@@ -21,6 +21,9 @@ CLAIM = {
              "(4) wb_coverage over the store table regenerated from the three x86 emitters (213 store sites): every store to a non-stack "
              "destination is inside a write-barrier helper, narrower than a pointer, an immediate, an output-buffer byte, or one of 59 listed "
              "exceptions with a category and an exact multiplicity - exhaustiveness is proved, the categories are reading-based arguments. "
+             "(5) frame_pointer_discipline over the prologue / epilogue rows regenerated from the three emitters: BP saved at size-8(SP), BP := that slot, "
+             "restored from it (what the frame-pointer unwinders of the block / mutex profilers and the tracer follow). (6) makeFuncnameTab: every "
+             "name offset resolves, read NUL-terminated as the runtime does, to the (bracket-rewritten) name written for that function. "
              "NOT proved and not provable here: actual collection, stack copying, asynchronous preemption, write-barrier execution, the "
              "emptiness of the LOCAL pointer maps being harmless - these are sampled by child processes running real generated code with "
              "callbacks that collect, walk and grow the stack under GOGC=1 / gccheckmark / SONIC_SYNC_GC."),
@@ -102,7 +105,7 @@ def run(ctx):
                                      "the Go transcription of runtime.readvarint/step/pcvalue in harness/cmd/c10 (cross-checked against the real runtime on loaded stubs)",
                                      "the Go runtime (collector, stack copier, preemption) as the system under which generated code is sampled"]
     ctx.assumptions = [
-        "OUTSIDE ANY PROOF: actual garbage collection, stack copying, asynchronous preemption and write-barrier execution while generated code is on the stack - only sampled (GOGC=1, GODEBUG=gccheckmark=1, SONIC_SYNC_GC=1, callbacks that call runtime.GC / runtime.Callers / debug.Stack and recurse deeply)",
+        "OUTSIDE ANY PROOF: actual garbage collection, stack copying, asynchronous preemption and write-barrier execution while generated code is on the stack - only sampled (GOGC=1, GODEBUG=gccheckmark=1, SONIC_SYNC_GC=1, callbacks that call runtime.GC / runtime.Callers / debug.Stack and recurse deeply; a map key type with UnmarshalText that collects and churns the heap after its last use of the receiver; callbacks blocking on a channel / mutex / timer under the block profiler, the mutex profiler, the execution tracer and the CPU profiler; PretouchMany batches followed by tracebacks that resolve function names)",
         "the local pointer maps of all generated functions are EMPTY (theorem C10_local_maps_empty): the local frame area is never scanned; that this is harmless (no pointer lives only in a local slot across a call) is not proved",
         "wb_coverage proves only that the list of un-barriered non-stack stores is exhaustive and exact; that each listed category (Scalar, Zero, TypeWord, StaticPointer, PointsIntoInput, FreshObject, SelfInterior, ParamNotHeap, ParamStack, BufferWriteback) really makes a barrier unnecessary is an argument made by reading the emitter (notes/C10.md), weakest for BufferWriteback (encoder save_buffer writes RP into *rb without a barrier)",
         "runtime.readvarint's uint32 accumulation and `shift & 31` are modelled without wrap; pcdata_wf bounds (pc < 2^28, |value| < 2^26) keep every encoding within 4 bytes where both agree",
@@ -115,7 +118,9 @@ def run(ctx):
         if not getattr(ctx, "p_fail", "").startswith("translator"):
             rc, out = c.coq_eval("C10diag", """From Coq Require Import String List.
 From SV.Loader Require Import WbSpec.
+From SV.Gen Require Import Frames.
 Eval vm_compute in ("exceptions_exact", exceptions_exact, "param_sites_ok", param_sites_ok, "helpers_ok", helpers_ok).
+Eval vm_compute in ("frames", jitdec_prologue, jitdec_epilogue, encoder_prologue, encoder_epilogue, generic_compile).
 Eval vm_compute in ("stores outside the helpers that are not listed", map key_of (filter (fun r => negb (existsb (fun e => key_eqb (key_of r) (fst (fst e))) exceptions)) leftovers),
                     "listed exceptions whose multiplicity changed", map (fun e => (fst (fst e), count_key (fst (fst e)))) (filter (fun e => negb (Nat.eqb (count_key (fst (fst e))) (snd (fst e)))) exceptions)).
 """, timeout=300)
@@ -197,6 +202,41 @@ Eval vm_compute in ("stores outside the helpers that are not listed", map key_of
                 problems.append(("T", "stack map: model %s implementation %s" % (a, b)))
     stats["stack_maps"] = {"cases": len(scases), "mismatches": sm_bad}
 
+    # ---- T3b: function-name tables (hook loader.VerifFuncnameTab) vs the model, and vs the meaning of the table
+    fc, fi = os.path.join(work, "fn.cases"), os.path.join(work, "fn.impl")
+    rc, out = harness(["-mode", "funcname", "-n", str(600 if not thorough else 8000), "-seed", str(ctx.seed), "-cases", fc, "-out", fi])
+    if rc != 0:
+        ctx.violation("function-name table harness crashed: " + out[-1500:], {"output": out[-3000:]}, True)
+        return
+    fcases, fimpl = open(fc).read().splitlines(), open(fi).read().splitlines()
+
+    def rewritten(nm):
+        i = nm.find(b"[")
+        j = nm.rfind(b"]")
+        return nm if i < 0 or j <= i else nm[:i] + b"[...]" + nm[j + 1:]
+    fn_bad = 0
+    for cl, il in zip(fcases, fimpl):
+        f = cl.split("\t")
+        names = [bytes.fromhex(x) if x != "-" else b"" for x in f[1].split(",")] if len(f) > 1 and f[1] else []
+        g = il.split("\t")
+        tab = bytes.fromhex(g[1])
+        offs = [int(x) for x in g[2].split(",")] if len(g) > 2 and g[2] else []
+        good = len(offs) == len(names)
+        for nm, o in zip(names, offs):
+            end = tab.find(b"\x00", o)
+            good = good and 0 < o <= len(tab) and tab[o:end] == rewritten(nm)
+        if not good:
+            fn_bad += 1
+            if len(found) < 5:
+                found.append({"kind": "function-name table", "what": "makeFuncnameTab: a name offset does not resolve to the (bracket-rewritten) name of its function",
+                              "names": [n.decode("utf8", "replace") for n in names], "table": g[1], "offsets": offs})
+    fml = model_lines(fc)
+    if fml is not None:
+        for a, b in zip(fml, fimpl):
+            if a.rstrip("\t") != b.rstrip("\t") and len(problems) < 6:
+                problems.append(("T", "function-name table: model %s implementation %s" % (a[:300], b[:300])))
+    stats["funcname_tables"] = {"cases": len(fcases), "mismatches": fn_bad}
+
     # ---- T4: tables of really generated code
     jc, ji = os.path.join(work, "jit.cases"), os.path.join(work, "jit.impl")
     rc, out = harness(["-mode", "jit", "-n", str(60 if not thorough else 600), "-seed", str(ctx.seed), "-cases", jc, "-out", ji], timeout=1500)
@@ -225,6 +265,20 @@ Eval vm_compute in ("stores outside the helpers that are not listed", map key_of
         envs = [(envs[0][0], 300), (envs[1][0], 60), (envs[2][0], 6), (envs[3][0], 150)]
     if found:
         envs = []   # a concrete failing input already exists: the stress sampling would add nothing (and may hang on broken tables)
+    # profilers / tracer / name-resolving tracebacks across generated frames (frame-pointer unwinding, funcnametab)
+    extra_runs = []
+    for mode_, k, env in ([] if found else [("prof", 12 if not thorough else 60, {}), ("prof", 8 if not thorough else 30, {"GOGC": "10", "GOMAXPROCS": "4"}),
+                                            ("names", 6 if not thorough else 60, {}), ("names", 3 if not thorough else 20, {"GOGC": "1"})]):
+        rc, out = harness(["-mode", mode_, "-n", str(k), "-seed", str(ctx.seed)], timeout=(300 if not thorough else 1200), env=env)
+        m = re.search(r"^OK (.*)$", out, re.M)
+        extra_runs.append({"mode": mode_, "env": env, "n": k, "rc": rc, "ok": bool(m) and rc == 0, "summary": m.group(1) if m else ""})
+        if not (m and rc == 0):
+            fatal = [l for l in out.splitlines() if l.startswith(("fatal error:", "panic:", "MISMATCH", "runtime:", "SIGSEGV", "unexpected fault"))][:3]
+            found.append({"kind": mode_ + " run", "what": "generated code with %s: exit status %d: %s" % (
+                              "callbacks blocking under SetBlockProfileRate(1) / SetMutexProfileFraction(1) / runtime/trace / CPU profile" if mode_ == "prof"
+                              else "PretouchMany batch + tracebacks resolving function names", rc, " | ".join(fatal) or "no OK line"),
+                          "command": "h_c10 -mode %s -n %d -seed %d" % (mode_, k, ctx.seed), "env": env, "output": out[:1500] + "\n...\n" + out[-1500:]})
+    stats["profiler_and_name_runs"] = extra_runs
     for env, k in envs:
         rc, out = harness(["-mode", "gc", "-n", str(k), "-seed", str(ctx.seed)], timeout=(400 if not thorough else 2400), env=env)
         m = re.search(r"^OK rounds=(\d+) callbacks=(\d+) frames=(\d+) jit_frames=(\d+)", out, re.M)
@@ -240,7 +294,7 @@ Eval vm_compute in ("stores outside the helpers that are not listed", map key_of
     ev = sum(s.get("probes", 0) for s in stats.values() if isinstance(s, dict)) + len(scases) + sum(g["callbacks"] for g in gc_runs)
     ctx.cov["evaluations"] = ev
     ctx.cov["distinct_nontrivial"] = trep["distinct_nontrivial"] + len(set(jcases)) + len(set(scases))
-    ctx.cov["traces_validated_against_impl"] = (len(cases) + len(lcases) + len(scases) + len(jcases)) if mok else 0
+    ctx.cov["traces_validated_against_impl"] = (len(cases) + len(lcases) + len(scases) + len(jcases) + len(fcases)) if mok else 0
     ctx.cov["rule"] = ("one evaluation = one pc looked up in one table (model, real MarshalBinary + transcribed decoder, and for line tables the real runtime), "
                        "one stack map, or one callback executed under generated frames with a forced collection, a traceback and a stack growth; "
                        "distinct = distinct non-empty table / bit list / generated function table")
